@@ -32,6 +32,66 @@ CLAIMED['C17'] = dict(
    note=NOTE + "C17: float rounding and numpy.sum's reduction order are not modelled (tolerance 2^-40 of the largest weight).",
    technique='Coq proof over Q (field/lra) + exact-rational differential correspondence')
 
+
+def claim(pid, text, note='', technique='Coq proof + in-Coq differential correspondence and spec monitors'):
+    CLAIMED[pid] = dict(text=text, ref='DESIGN.md section 6 ' + pid, note=NOTE + note, technique=technique)
+
+claim('C01',
+  "Coq theorems: every 0/1 point of the basic constraints denotes a valid matching (forall instance sizes, closures included); "
+  "every problem of a run contains those constraints; hence for ANY oracle satisfying the MILP contract (any optimal solution at "
+  "any stage) and any option set an Optimal run prints a valid matching. Tied to the code by R_lp: every problem handed to "
+  "pulp.LpProblem.solve (constraints as canonical multisets, objective, bounds, duplicate names) equals the model's, with recorded "
+  "answers replayed as the oracle; the printed matching of every Optimal run is judged by valid_b in Coq.",
+  "C01: CBC assumed to satisfy milp_ok (integral values, feasibility, optimality); PuLP expression algebra observed, not proved.")
+claim('C06',
+  "Coq theorem check_correct: on every well-formed two-sided instance and every assignment to acceptable projects the model of "
+  "check_stability returns Ok (no blocking pair by the SPA-STL definition), never an exception. Tied to the code by R_checker "
+  "(value or exception class on enumerated assignments incl. zero capacities); M_checker judges the implementation's answer by "
+  "stable_b evaluated in Coq. The repaired defect F08 (TypeError on zero capacity) is in corpus/C06.")
+claim('C07',
+  "Coq theorem bf_correct: for every well-formed instance the brute-force model never fails and prints exactly the declarative "
+  "optima over all valid matchings (all nine statistics; Infeasible iff none), every profile with one entry per rank. Tied to "
+  "the code by R_bf (text or exception class through Solver -bf) and judged by M_bf against the Coq specification. F09 repaired.")
+claim('C08',
+  "Coq theorems: quotas/targets/projects-per-lecturer are spread evenly (length, sum, max-min<=1, larger first, pointwise monotone in "
+  "the total so lower<=target<=upper), tie probability 0 gives no parenthesis and 1 one group. File assembly is tied byte-for-byte to "
+  "the code from recorded RNG draws (R_genfile) and every written file is re-read by the C10-proved model importer and judged in Coq "
+  "(M_genfile). 'Every length can occur'/tie frequencies are requests to numpy's RNG (checked), its distribution is trusted: partial.",
+  "C08: numpy.random / random.shuffle are oracles (their recorded results are replayed); float formatting of the parameter block is "
+  "taken from python's str().")
+claim('C10',
+  "Coq theorem import_render: for every abstract file of the documented format, na=2/3, with/without -twopl, with any trailing "
+  "lines, the character-level model of the importer returns exactly the denoted instance (dense tie-group ranks, 2-agent embedding, "
+  "ignored second side without -twopl). Proved for single-blank rendering; arbitrary blank/tab runs, leading zeros and missing final "
+  "newline are covered by R_import (all Model attributes, pairs and derived lists compared) only: partial w.r.t. whitespace.")
+claim('C11',
+  "Coq theorems: every printed quantity and listing computed from the assigned pairs equals the value computed from the instance and "
+  "the matching line alone (all 11 fields), and the assigned pairs of any 0/1 point are the pairs of its matching line. Tied to the code "
+  "by R_results (byte-exact get_results short/long on synthetic values) and judged by M_results against the Coq specification text.")
+claim('C12',
+  "Coq theorems: the inversion lists agent i under j exactly once iff i lists j, and a student's lecturer list is exactly the lecturers "
+  "offering a listed project, each once. random.shuffle is a permutation oracle: R_invert/R_genfile check each written list is a "
+  "permutation of the model's inversion; M_second_side compares second-side lines with first-side lines of the same file in Coq.")
+claim('C14',
+  "Coq theorems for an ARBITRARY oracle (any status/values at any solve): all performed solves but the last were Optimal and the "
+  "last one's status is reported; when the status is not Optimal or the run timed out the result text does not depend on the variable "
+  "values (no matching, no statistic) and is produced; a limit stop implies Timeout. Tied to the code by R_faults (exhaustive/sampled "
+  "fault plans injected at pulp.LpProblem.solve, scripted clock) and judged by c14_verdict in Coq. F07 repaired. The total=limit clock "
+  "corner and CBC's own time accounting are outside the model: partial.")
+claim('C15',
+  "Coq theorem decide_spec: the model of the argument checks accepts exactly the documented argument sets, never raises, rejects all "
+  "others. Tied to the code by R_genargs (legal vectors and all single-fault perturbations, accepted / exit 2 / exception) and judged by "
+  "M_genargs (documented rule; no directory may exist after a rejection). F11 repaired. argparse itself is trusted.")
+claim('C16',
+  "Coq theorems: the slot-array parser returns the criteria in increasing position order with their extras and refuses out-of-range, "
+  "duplicate positions and -stab without -twopl; the logged optimisation lines are a prefix of that list. Tied to the code by R_opts, "
+  "judged by M_opts / M_refuse (SystemExit before the file is read) / M_info on full runs. Flag-order independence is argparse's (sampled).")
+claim('C18',
+  "Coq theorems: getters leave the state unchanged and return one fixed text; two runs against any correct MILP oracles (different "
+  "tie-breaks allowed) hand over the same problems (same frozen optimum per stage), same status, same log, and print a valid matching. "
+  "Tied to the code by R_session (histories over solve/get_* incl. re-solves, limits and idle gaps under a scripted clock) and judged by "
+  "M_getters. F12, F13 repaired.")
+
 NOT_YET = {}
 
 def main():
